@@ -75,7 +75,8 @@ def gen(rng, tier, ctx):
         elif m < 0.87:
             p["force_down"] = not p["force_down"]
         elif m < 0.93:
-            p["max_reward"] = rng.choice([1, 6, 16, p["width"], p["length"]])
+            p["max_reward"] = rng.choice([1, 6, 16, p["width"], p["length"], 1022, 1023, 1074, 1075, 5000, 2 ** 63,
+                                          p["max_reward"] + 1, p["max_reward"] * 10])
         else:
             # swap two probabilities: the name must tell which is which
             a, b_ = rng.sample(["rb", "lb", "tb", "lt"], 2)
@@ -147,7 +148,7 @@ def execute(spec, w, ctx):
             cfg["fs_faults"] = op["fs_faults"]
         out, before, after, changed, wopens = genops.run_gen(w, op, cfg)
         # every path this invocation put data into (opens, writes through handles opened earlier, changed files)
-        touched = sorted(set(wopens) | set(changed) | {e[2] for e in out["fs_events"] if e[1] == "write"})
+        touched = genops.game_files(set(wopens) | set(changed) | {e[2] for e in out["fs_events"] if e[1] == "write" and e[2] in after})
         what = ("create_sg_from_board(...) with " + str({k: v for k, v in want.items()})) if kind == "gen_manual" else \
             "`roberta_generator.py %s`" % " ".join(ops.gen_argv(op["params"])[1:])
         events.append([i_op, kind, out["status"], sorted(set(wopens))])
@@ -163,7 +164,7 @@ def execute(spec, w, ctx):
             break
         for rel in touched:
             written[rel] = wset
-        paths = sorted(set(wopens))
+        paths = genops.game_files(wopens)
         if out["status"] != "ok" or len(paths) != 1:
             # crashes and file counts are C11/C15's business; nothing to name-check
             discards["no-single-file"] = discards.get("no-single-file", 0) + 1
